@@ -6,6 +6,7 @@ lock (`alive` / `terminated` Mutex), of a connection's lock (`ContextRef` RwLock
 bound and stays alive across later `.await`s, with those awaits classified:
 
   lock       a Mutex / rule-list acquisition (`.lock().await`, `rules().await`)
+  lockAlive / lockTerminated   acquisition of the registry's `alive` map / `terminated` history list
   ctxlock    a connection's RwLock acquisition (`.read()/.write().await`)
   callback   a listener callback (`cb.on_connect/on_error/on_finish`) — writes one short reply to the client
   external   anything that waits for a peer or a timer: socket reads/writes, connect, DNS, handshakes, the relay,
@@ -95,6 +96,10 @@ def awaits_in(s, a, b):
             cls = "external"
         elif re.search(r"\.(read|write|read_owned|write_owned)\(\)\s*\.await", tail[-40:]):
             cls = "ctxlock"
+        elif re.search(r"\balive\s*\.\s*lock\(\)\s*\.await", tail[-60:]):
+            cls = "lockAlive"
+        elif re.search(r"\bterminated\s*\.\s*lock\(\)\s*\.await", tail[-60:]):
+            cls = "lockTerminated"
         elif LOCKAWAIT.search(tail[-40:]):
             cls = "lock"
         else:
@@ -156,7 +161,7 @@ def lstr(s):
 
 
 out = ["/- GENERATED by translate/locksites.py from /repo/src — do not edit -/", "namespace Redproxy.Gen", "",
-       "inductive AwaitClass | lock | ctxlock | callback | external | local", "  deriving Repr, DecidableEq", "",
+       "inductive AwaitClass | lock | lockAlive | lockTerminated | ctxlock | callback | external | local", "  deriving Repr, DecidableEq", "",
        "/-- (file, function, which lock, how the guard is held, awaits while it is held) -/",
        "def lockSites : List (String × String × String × String × List (String × AwaitClass)) := ["]
 rows = []
